@@ -106,6 +106,8 @@ def r1(ctx):
     I = Interp(ctx.index, Config(stubs=stubs, dyn_stubs=[dyn]))
     loc = ctx.index.loc(ctx.index.func(f"{JAR}.get").node)
     hist = [(s,) for s in SETS] + list(itertools.product(SETS, SETS))
+    if ctx.tier == "thorough":
+        hist += list(itertools.product(SETS, SETS, SETS))
     if ctx.tier == "quick":
         hist = [h for h in hist if len(h) == 1 or (h[0] != h[1] and SETS.index(h[0]) < 5 and SETS.index(h[1]) < 7)]
     fails = {}
